@@ -216,7 +216,7 @@ func (x *hkdfModel) read(n int, nilBuf bool) bool {
 func TestC18(t *testing.T) {
 	m := mon.New(t, "C18")
 	defer m.Done()
-	m.Rule("pbkdf2 cases: hash in {SHA-1, SHA-256, SHA-512} (by index), password/salt 0..~200 bytes incl. empty, exactly one HMAC block and longer than a block, iter 1..50, keyLen from {1, HashLen-1, HashLen, HashLen+1, 2·HashLen, 2·HashLen+1, 200} or random 1..200; output compared with the RFC 8018 reference (h/ref/kdfref, own HMAC) and, every 4th case, python hashlib.pbkdf2_hmac. hkdf histories: hash by index, secret/salt/info nil, empty, block-sized, over-block and random; Extract compared with the reference; two readers (hkdf.New and hkdf.Expand over hkdf.Extract's PRK) are driven in interleaved fashion through a read-size history of one of 6 shapes fixed by index (small reads then landing at limit−{0,1,2,HashLen∓1}; one read of exactly the limit; one read of limit+1 then the full limit; sum to limit−1 then 2,1,1,0; HashLen±1 reads across all 255 blocks; log-uniform sizes past the limit with retries), zero-length reads (empty and nil slices) sprinkled in; model state = bytes consumed c: a Read(n) with c+n ≤ 255·HashLen must return the reference bytes ref[c:c+n] with nil error, a Read that exceeds the rest must report an error (any bytes it still returns must be the next reference bytes and are counted as consumed; an io.Reader-style short read without error is tolerated but a full or empty read without error is not), nothing beyond 255·HashLen is ever returned, Read(0) returns (0,nil). distinct = (hash, history shape, input shapes)")
+	m.Rule("pbkdf2 cases: hash in {SHA-1, SHA-256, SHA-512} (by index), password/salt 0..~200 bytes incl. empty, exactly one HMAC block and longer than a block, iter 1..50, keyLen from {1, HashLen-1, HashLen, HashLen+1, 2·HashLen, 2·HashLen+1, 200} or random 1..200; output compared with the RFC 8018 reference (h/ref/kdfref, own HMAC) and, every 4th case, python hashlib.pbkdf2_hmac. hkdf histories: hash by index, secret/salt/info nil, empty, block-sized, over-block and random; Extract compared with the reference; two readers (hkdf.New and hkdf.Expand over hkdf.Extract's PRK) are driven in interleaved fashion through a read-size history of one of 6 shapes fixed by index (small reads then landing at limit−{0,1,2,HashLen∓1}; one read of exactly the limit; one read of limit+1 then the full limit; sum to limit−1 then 2,1,1,0; HashLen±1 reads across all 255 blocks; log-uniform sizes past the limit with retries), zero-length reads (empty and nil slices) sprinkled in; model state = bytes consumed c: a Read(n) with c+n ≤ 255·HashLen must return the reference bytes ref[c:c+n] with nil error, a Read that exceeds the rest must report an error (any bytes it still returns must be the next reference bytes and are counted as consumed; an io.Reader-style short read without error is tolerated but a full or empty read without error is not), nothing beyond 255·HashLen is ever returned, Read(0) returns (0,nil). All input slices are guarded copies (exact or spare capacity with a sentinel) that must be unchanged after the calls and after the read history; the last 8 PBKDF2 keys and PRKs are kept and re-verified after later calls. distinct = (hash, history shape, input shapes)")
 	m.Assume("h/ref/kdfref (own HMAC per RFC 2104, PBKDF2 per RFC 8018 §5.2, HKDF per RFC 5869 §2) passes the RFC 2202/4231/6070/7914/5869 vectors; SHA-1/SHA-2 compression from the Go standard library is trusted (shared with the code under test), cross-checked by python hashlib (OpenSSL) for PBKDF2 and by `openssl kdf HKDF` for a sample of full HKDF streams")
 	py, pyErr := ext.StartPy()
 	if pyErr != nil {
@@ -227,6 +227,8 @@ func TestC18(t *testing.T) {
 
 	// ---------- PBKDF2 ----------
 	nP := m.N(1500, 40000)
+	keptP := newRetained(m, "pbkdf2.Key", 8)
+	keptH := newRetained(m, "hkdf.Extract", 8)
 	m.Cases("pbkdf2", nP, func(i int64, r *rand.Rand) {
 		h := c18Hashes[i%3]
 		pw := c18Input(r, h, true)
@@ -246,8 +248,9 @@ func TestC18(t *testing.T) {
 			kl = 1 + r.IntN(200)
 		}
 		want := kdfref.PBKDF2(h.new, pw, salt, iter, kl)
-		pwc, saltc := append([]byte(nil), pw...), append([]byte(nil), salt...)
-		got := pbkdf2.Key(pwc, saltc, iter, kl, h.new)
+		gpw, gsalt := newGbuf(pw, gbufSpare()), newGbuf(salt, gbufSpare())
+		got := pbkdf2.Key(gpw.S(), gsalt.S(), iter, kl, h.new)
+		keptP.add(got, fmt.Sprintf("pbkdf2 case %d", i))
 		m.Eval()
 		blocks := (kl + h.size - 1) / h.size
 		m.Distinct(fmt.Sprintf("pbkdf2 %s blocks=%d tail=%v iter1=%v pw:%s salt:%s", h.name, blocks, kl%h.size != 0, iter == 1, c18LenClass(len(pw), h), c18LenClass(len(salt), h)))
@@ -276,9 +279,8 @@ func TestC18(t *testing.T) {
 			wit["got"], wit["want"] = mon.Hex(got), mon.Hex(want)
 			m.Violation("pbkdf2-wrong-key:"+h.name, wit)
 		}
-		if !bytes.Equal(pwc, pw) || !bytes.Equal(saltc, salt) {
-			m.Violation("pbkdf2-modifies-input", wit)
-		}
+		checkInputs(m, "pbkdf2.Key", wit, map[string]*gbuf{"password": gpw, "salt": gsalt})
+		keptP.recheck()
 	})
 	m.Gate("pbkdf2_ref_comparisons", nP, "every PBKDF2 case compared with the RFC 8018 reference")
 	m.Gate("pbkdf2_multi_block_outputs", nP/4, "outputs spanning several PRF blocks (block index > 1), forced by the fixed keyLen list")
@@ -299,7 +301,10 @@ func TestC18(t *testing.T) {
 		wit := map[string]any{"hash": h.name, "secret": mon.FullHex(secret), "salt": mon.FullHex(salt), "info": mon.FullHex(info), "salt_nil": salt == nil, "info_nil": info == nil, "shape": shapes[shape]}
 
 		prkWant := kdfref.HKDFExtract(h.new, secret, salt)
-		prkGot := hkdf.Extract(h.new, append([]byte(nil), secret...), append([]byte(nil), salt...))
+		gsec, gsalt, ginfo := newGbuf(secret, gbufSpare()), newGbuf(salt, gbufSpare()), newGbuf(info, gbufSpare())
+		prkGot := hkdf.Extract(h.new, gsec.S(), gsalt.S())
+		checkInputs(m, "hkdf.Extract", wit, map[string]*gbuf{"secret": gsec, "salt": gsalt})
+		keptH.add(prkGot, fmt.Sprintf("hkdf case %d", i))
 		m.Eval()
 		m.Count("hkdf_extract_comparisons", 1)
 		if !bytes.Equal(prkGot, prkWant) {
@@ -325,8 +330,18 @@ func TestC18(t *testing.T) {
 		m.Distinct(fmt.Sprintf("hkdf %s %s secret:%s salt:%s info:%s", h.name, shapes[shape], c18LenClass(len(secret), h), c18LenClass(len(salt), h), c18LenClass(len(info), h)))
 
 		// two readers that must both follow the same stream, driven interleaved
-		a := &hkdfModel{m: m, name: "New", r: hkdf.New(h.new, secret, salt, info), ref: ref, hLen: h.size, wit: wit}
-		b := &hkdfModel{m: m, name: "Expand(Extract)", r: hkdf.Expand(h.new, prkGot, info), ref: ref, hLen: h.size, wit: wit}
+		// the readers get guarded slices (the reader keeps a reference to info); the PRK handed to Expand is
+		// a guarded copy of Extract's result
+		gprk := newGbuf(prkGot, gbufSpare())
+		ginfo2 := newGbuf(info, gbufSpare())
+		a := &hkdfModel{m: m, name: "New", r: hkdf.New(h.new, gsec.S(), gsalt.S(), ginfo.S()), ref: ref, hLen: h.size, wit: wit}
+		b := &hkdfModel{m: m, name: "Expand(Extract)", r: hkdf.Expand(h.new, gprk.S(), ginfo2.S()), ref: ref, hLen: h.size, wit: wit}
+		checkInputs(m, "hkdf.New/Expand", wit, map[string]*gbuf{"secret": gsec, "salt": gsalt, "info(New)": ginfo, "pseudorandomKey": gprk, "info(Expand)": ginfo2})
+		defer func() {
+			// after the whole read history: inputs still untouched, earlier PRKs unchanged
+			checkInputs(m, "hkdf.Reader.Read", wit, map[string]*gbuf{"secret": gsec, "salt": gsalt, "info(New)": ginfo, "pseudorandomKey": gprk, "info(Expand)": ginfo2})
+			keptH.recheck()
+		}()
 		both := func(n int) bool {
 			nb := r.IntN(2) == 0
 			ok1 := a.read(n, nb)
@@ -431,6 +446,9 @@ func TestC18(t *testing.T) {
 			m.Count("hkdf_histories_completed", 1)
 		}
 	})
+	m.Gate("input_immutability_checks", 2*nP+12*nH, "password/salt/secret/info/PRK slices (guarded copies, with and without spare capacity) compared with their snapshot after the calls and after the whole read history")
+	m.Gate("input_immutability_checks_with_spare_capacity", nP+nH, "of which slices with cap > len whose spare capacity carries a sentinel")
+	m.Gate("retained_outputs_rechecked", nP+nH, "keys/PRKs returned by earlier calls re-verified after later calls")
 	m.Gate("hkdf_extract_comparisons", nH, "every history starts with an Extract comparison")
 	m.Gate("hkdf_histories_completed", nH, "every history was followed to its end by the stream model")
 	m.Gate("hkdf_histories_that_consumed_all_255_blocks", nH, "every history reads the stream up to exactly 255·HashLen on both readers")
